@@ -44,6 +44,7 @@ MIN_REACH = {
     "growers_running_as_a_non_root_mpi_rank": {"quick": 150, "thorough": 3000},
     "redundant_growers_that_found_the_crop_gone": {"quick": 30, "thorough": 600},
     "schedules_with_megabyte_results": {"quick": 9, "thorough": 40},
+    "waiting_reaps_that_would_accept_an_incomplete_crop": {"quick": 200, "thorough": 3000},
 }
 TIME_BUDGET = {"quick": 400, "thorough": 3400}
 CASE_TIMEOUT = {"quick": 380, "thorough": 3000}
@@ -75,6 +76,10 @@ CONFIGS = {
     # results (the redundant grower may then find the crop gone: its failure is its own)
     "g2same_reaper_cleanup": (2, 2, [1, 1], True, 0),
     "g3mixed_reaper_cleanup": (4, 2, [1, 2, 1], True, 0),
+    # the reaper waits AND would accept an incomplete crop (reap(wait=True, allow_incomplete=True)); batch 1 was finished
+    # before anybody started: waiting still means waiting, every value is the direct run's
+    "g1_reaper_waitinc": (4, 2, [2], True, 0),
+    "g2_reaper_waitinc": (6, 2, [3, 2], True, 0),
 }
 
 
@@ -88,7 +93,8 @@ def cases(ctx):
                      ("g2same_reaper", ctx.pick(150, 8000)), ("g2same_reaper_wfail", ctx.pick(150, 4000)),
                      ("g2same_poller_wfail", ctx.pick(100, 4000)),
                      ("g2same_reaper_mpi", ctx.pick(100, 4000)), ("g2same_poller_mpi", ctx.pick(80, 4000)),
-                     ("g2same_reaper_cleanup", ctx.pick(200, 6000))):
+                     ("g2same_reaper_cleanup", ctx.pick(200, 6000)), ("g1_reaper_waitinc", ctx.pick(100, 4000)),
+                     ("g2_reaper_waitinc", ctx.pick(80, 4000))):
         for j in range(J):
             yield {"cfg": cfg, "mode": "dfs", "cap": cap, "kind": "array:30", "part": [j, J]}
     # validation of the reduction itself: brute force over ALL interleavings vs. sleep sets
@@ -145,6 +151,9 @@ class World(object):
         with quiet():
             crop = xyzpy.Crop(fn=fn, name=NAME, parent_dir=self.template, batchsize=self.bs)
             crop.sow_combos({"a": list(range(1, self.n + 1))}, verbosity=0)
+            if cfg.endswith("_waitinc"):
+                crop.grow(1)
+        self.waitinc = cfg.endswith("_waitinc")
         self.B = crop.num_batches
         self.w = {"mode": "grid", "combos": [["a", list(range(1, self.n + 1))]], "names": None, "cases": None}
         self.same_batch_twice = len(set(self.growers)) < len(self.growers)
@@ -241,6 +250,8 @@ def run_schedule(world, chooser):
 
     def reaper():
         crop = xyzpy.Crop(name=NAME, parent_dir=root)
+        if world.waitinc:
+            return crop.reap(wait=True, allow_incomplete=True)
         return crop.reap(wait=True, clean_up=False if ((world.same_batch_twice and not world.cleanup) or world.polls) else None)
 
     def poller():
@@ -303,6 +314,8 @@ def judge(ctx, world, obs, case, extra_sig):
             nv += 1
     if world.reaper and S.actors["reaper"].outcome[0] == "ok":
         ctx.count("reaps_checked")
+        if world.waitinc:
+            ctx.count("waiting_reaps_that_would_accept_an_incomplete_crop")
         d, _ = cropkit.compare_nest(S.actors["reaper"].outcome[1], world.w, {}, world.kind)
         if d:
             ctx.violation(wit, "reap(wait=True) returned a result that differs from the direct run: %s" % d, dict(sig, oracle="reap-exact"))
